@@ -129,6 +129,17 @@ def ts_in(k):
     return ["c20in p0 %d ts:2" % k]
 
 
+def refd(inp=None, fd="block.A.", sizes=(7, 188, 3)):
+    """Every other input is preceded by the flow definition sent again, this time announcing a block size: an
+    accepted set_flow_def is not a setter of the option under test and must leave it alone."""
+    base = inp or (lambda k: ["c20in p0 %d 4" % k])
+
+    def f(k):
+        pre = ["opt p0 set flow_def %s@%d" % (fd, sizes[(k // 2) % len(sizes)])] if k % 2 == 1 else []
+        return pre + base(k)
+    return f
+
+
 def dated(size=4, step=20000):
     def f(k):
         return ["c20in p0 %d %d cr_sys=%d cr_prog=%d dp=5 cd=7" % (k, size, 1000000 + k * step, 500 + k * 900)]
@@ -156,15 +167,15 @@ PUMP_END = ["rel p0", "c20run", "c20adv 200000000", "c20run", "rel x0"]
 def registry(workdir=None):
     U64 = "18446744073709551615"
     R = [
-        Opt("skip", "offset", ["3", "1", "5", "0", "8", "2"], inp=lambda k: ["c20in p0 %d 8" % k]),
+        Opt("skip", "offset", ["3", "1", "5", "0", "8", "2"], inp=refd(lambda k: ["c20in p0 %d 8" % k])),
         Opt("delay", "delay", ["100", "2000", "-50", "0", "27000000"],
             inp=lambda k: ["c20in p0 %d 4 pts_prog=%d pts_sys=%d dp=10" % (k, 1000 * k, 50000 + k)]),
         # align 1 only: with another alignment the flush of the real pipe does not
         # terminate when less than `align` octets remain (DESIGN.md S4, property C14)
         Opt("chunk_stream", "mtu", ["4,1", "6,1", "9,1", "5,1", "0,1", "4,4", "3,0", "2,5"],
-            inp=lambda k: ["c20in p0 %d 8" % k]),
-        Opt("agg", "output_size", ["8", "12", "20", "5", "1316"]),
-        Opt("setattr", "dict", ["T1", "T2", "T3", "none", "Dq"]),
+            inp=refd(lambda k: ["c20in p0 %d 8" % k])),
+        Opt("agg", "output_size", ["8", "12", "20", "5", "1316"], inp=refd()),
+        Opt("setattr", "dict", ["T1", "T2", "T3", "none", "Dq"], inp=refd()),
         Opt("setflowdef", "dict", ["T1", "Dq", "Dr", "none", "T2"]),
         Opt("setrap", "rap", ["1000", "5000", "0", U64, "999999"], inp=dated()),
         Opt("genaux", "getattr", ["cr_prog", "pts_sys", "dts_prog", "cr_sys", "pts_orig", "null", "bogus"],
